@@ -61,7 +61,10 @@ fn main() {
         }
         i += 1;
     }
-    let prop: &'static str = match cmd.as_str() {
+    if cmd == "c04-one" || cmd == "c03-one" {
+        std::process::exit(if cmd == "c04-one" { tmon::c04::one(&args[2]) } else { 2 });
+    }
+    let prop: &'static str = match cmd.trim_end_matches("-child") {
         "c01" => "C01",
         "c02" => "C02",
         "c03" => "C03",
@@ -94,6 +97,10 @@ fn main() {
     let code = match cmd.as_str() {
         "c01" => tmon::c01::run(&ctx),
         "c02" => tmon::c02::run(&ctx),
+        "c03" => tmon::c03::run(&ctx),
+        "c03-child" => tmon::c03::child(&ctx),
+        "c04" => tmon::c04::run(&ctx, "c04"),
+        "c04-child" => tmon::c04::child(&ctx),
         "c05" => tmon::c05::run(&ctx),
         "c06" => tmon::c06::run(&ctx),
         "c07" => tmon::c07::run(&ctx),
